@@ -352,6 +352,7 @@ pub fn run(ctx: &Ctx) -> Report {
             v.push(Via::Builder(Transport::Rec16));
         }
         v.push(Via::Builder(Transport::Spi { buf: 32 }));
+        v.push(Via::Builder(Transport::Spi { buf: 1 }));
         if thorough {
             v.push(Via::Builder(Transport::Par8));
             if type_compatible(m, Transport::Par16) {
